@@ -177,9 +177,22 @@ def apply_op(step, regs, cplx):
         if step['asint']:
             rows, cols = numpy.flatnonzero(rows), numpy.flatnonzero(cols)
         return A.submatrix(rows, cols)
+    if op == 'submatrix_reuse':
+        # the caller's persistent boolean mask buffers for this matrix object, overwritten in place before the call
+        if len(_MASKBUFS) > 4000:
+            _MASKBUFS.clear()
+        ent = _MASKBUFS.get(id(A))
+        if ent is None or ent[0] is not A:
+            ent = _MASKBUFS[id(A)] = (A, numpy.zeros(A.shape[0], dtype=bool), numpy.zeros(A.shape[1], dtype=bool))
+        ent[1][...] = step['rows']
+        ent[2][...] = step['cols']
+        return A.submatrix(ent[1], ent[2])
     if op == 'pickle':
         return pickle.loads(pickle.dumps(A))
     raise RuntimeError('unknown op ' + op)
+
+
+_MASKBUFS = {}
 
 
 def exc_key(bname, opname, e, matrix):
@@ -368,9 +381,13 @@ def run_design(rep):
     def mutant():
         return _tlc('MCMatrixADT', 'MCMatrixADT_mutant.cfg', tag='c15-{}-mutant'.format(rep.tier), deadlock=False, workers=2, expect_violation=True)
 
+    def cachemutant():
+        return _tlc('MCMatrixADT', 'MCMatrixADT_cachemutant.cfg', tag='c15-{}-cachemutant'.format(rep.tier), deadlock=False, workers=2, expect_violation=True)
+
     behaviours = {}
     with concurrent.futures.ThreadPoolExecutor(max_workers=4 if rep.tier == 'quick' else 5) as pool:
         fm = pool.submit(mutant)
+        fc = pool.submit(cachemutant)
         futs = [pool.submit(one, item) for item in runs]
         for fut in futs:
             (tag, kw, exh), res = fut.result()
@@ -384,6 +401,10 @@ def run_design(rep):
             for beh in res.emitted:
                 behaviours.setdefault(json.dumps(beh, sort_keys=True), beh)
         mres = fm.result()
+        cres = fc.result()
+    if cres.violated != 'StepsFaithful':
+        raise RuntimeError('spec mutant CacheCopies=FALSE (submatrix cache keeps the caller\'s mask objects) does not violate StepsFaithful (got {})'.format(cres.violated))
+    rep.extra['spec_mutant_cache'] = 'CacheCopies=FALSE: TLC reports StepsFaithful violated after {} states'.format(cres.distinct or cres.generated)
     if mres.violated != 'AcceptIffValid':
         raise RuntimeError('spec mutant (greater_equal / no lower bound) does not violate AcceptIffValid: the invariant is vacuous')
     rep.extra['spec_mutant'] = 'StrictOrder=FALSE, LowerBound=FALSE: TLC reports AcceptIffValid violated after {} states'.format(mres.distinct or mres.generated)
